@@ -371,7 +371,7 @@ func runCase(sp *spec) result {
 			obs = hx.App("ORet", res, hx.Bool(snap[evSstarted]), hx.Bool(snap[evSready]), hx.Bool(snap[evSsendhook]), hx.Bool(snap[evPmid]))
 			kind = strings.Trim(res, "()")
 		}
-	case <-time.After(8 * time.Second):
+	case <-time.After(4 * time.Second): // below the workers' 5 s default deadline
 		obs, kind = "OHung", "hung"
 	}
 	close(c.cleanup)
